@@ -11,8 +11,9 @@ import gen as G
 VMAX = 50  # symbolic EDB values range over [-VMAX, VMAX] (keeps i64/f64 arithmetic exact for depth<=3 terms)
 
 TIERS = {
-    "quick": {"rows": 2, "rows_flat": 2, "k": 3, "timeout_ms": 10000, "n_seeded": 16, "n_templates": 32},
-    "thorough": {"rows": 3, "rows_flat": 3, "k": 4, "timeout_ms": 120000, "n_seeded": 120, "n_templates": 10 ** 6},
+    "quick": {"rows": 2, "rows_flat": 2, "k": 3, "timeout_ms": 10000, "n_seeded": 20, "n_templates": 32, "budget_s": 480},
+    "thorough": {"rows": 3, "rows_flat": 3, "k": 4, "timeout_ms": 120000, "n_seeded": 80, "n_templates": 10 ** 6,
+                 "budget_s": 5400},
 }
 
 
@@ -29,10 +30,19 @@ class Run:
         self.nontrivial = 0
         self.skipped = []
         self.t0 = time.time()
+        self.budget_hit = None
+
+    def out_of_time(self):
+        """Wall-clock budget of the tier: when it is used up the remaining cases are not started (and are counted)."""
+        if time.time() - self.t0 > self.cfg["budget_s"]:
+            if self.budget_hit is None:
+                self.budget_hit = self.programs
+            return True
+        return False
 
     # ---------------------------------------------------------------------------------
     def rows_for(self, program, kind):
-        return self.cfg["rows_flat"] if kind in ("flat", "template", "agg", "shared") else self.cfg["rows"]
+        return self.cfg["rows_flat"] if kind in ("flat", "template", "agg", "shared", "twins") else self.cfg["rows"]
 
     def compare(self, label, edb_tables, A, B, side, desc):
         """Decide  forall EDB in bounds . side => A == B  (as sets). Returns verdict, concrete EDB."""
@@ -52,16 +62,21 @@ class Run:
         if ne is False:
             return []
         allp = S.AND(*[r.p for rws in edb_tables.values() for r in rws])
-        near = []
-        for rws in edb_tables.values():
-            for i, a in enumerate(rws):
-                for b in rws[:i]:
-                    n = len(a.c)
-                    for skip in range(n):
-                        near.append(S.AND(*[S.EQ(a.c[j], b.c[j]) for j in range(n) if j != skip]))
+
+        def near(which):
+            """rows 0 and 1 of every relation agree on all columns but one (the last / the first)"""
+            cs = []
+            for rws in edb_tables.values():
+                if len(rws) < 2 or len(rws[0].c) < 2:
+                    continue
+                a, b = rws[0], rws[1]
+                n = len(a.c)
+                skip = n - 1 if which == "last" else 0
+                cs.append(S.AND(*[S.EQ(a.c[j], b.c[j]) for j in range(n) if j != skip]))
+            return S.AND(*cs)
         two = S.OR(*[S.AND(a.p, b.p, S.NOT(E.tup_eq(a.c, b.c))) for i, a in enumerate(rows) for b in rows[:i]])
         out = []
-        for goals in ([S.AND(allp, S.OR(*near), ne), S.AND(allp, ne)], [two, ne]):
+        for goals in ([S.AND(allp, near("last"), ne)], [S.AND(allp, near("first"), ne), S.AND(allp, ne)], [two, ne]):
             for goal in goals:
                 if goal is False:
                     continue
@@ -133,6 +148,8 @@ class Run:
             "unsupported_by_encoder": st.unsupported,
             "skipped_undecided": self.skipped[:30],
             "k_incomplete_cases": st.k_incomplete,
+            "time_budget_s": self.cfg["budget_s"],
+            "budget_exhausted_after_programs": self.budget_hit,
             "bounds": {"rows_per_relation": self.cfg["rows"], "rows_flat": self.cfg["rows_flat"],
                        "fixpoint_rounds": self.cfg["k"], "value_range": [-VMAX, VMAX],
                        "solver_timeout_ms": self.cfg["timeout_ms"]},
@@ -165,9 +182,15 @@ ASSUME_P = [
 ]
 
 
-def corpus(run, kinds, with_templates=False):
+def corpus(run, kinds, with_templates=False, rec_templates=0):
     g = G.Gen(vc.seed() * 7919 + 17)
     out = []
+    if rec_templates:
+        rt = G.rec_templates()
+        if rec_templates < len(rt):
+            step = -(-len(rt) // rec_templates)
+            rt = rt[vc.seed() % step::step]
+        out.extend((t, "rec") for t in rt)
     if with_templates:
         ts = G.templates()
         if len(ts) > run.cfg["n_templates"]:
@@ -185,6 +208,8 @@ def corpus(run, kinds, with_templates=False):
         except Exception:
             continue
         out.append((p, k))
+    # interleave the families so that a run cut short by its time budget still touches all of them
+    random.Random(vc.seed() + 99).shuffle(out)
     return out
 
 
@@ -346,7 +371,10 @@ def key_c01(program, kind, rep, plan):
 
 
 def run_c01(run):
-    for program, kind in corpus(run, ["flat", "shared", "rec", "rec", "agg", "mutual", "flat", "rec"], with_templates=True):
+    for program, kind in corpus(run, ["flat", "shared", "rec", "twins", "rec", "agg", "mutual", "flat", "rec"], with_templates=True,
+                                rec_templates=32):
+        if run.out_of_time():
+            break
         check_vs_reference(run, program, kind, [P.DEFAULT_CFG], key_c01)
     return run.finish("translation_validation",
                       {"explanation": "plans executed by IQLEngine::execute_tuples under the default configuration vs the "
@@ -362,7 +390,11 @@ def run_c06(run):
         return "aggregate-" + "-".join(fs)
     cfgs = P.ALL_CONFIGS if run.tier == "thorough" else [P.DEFAULT_CFG, P.OFF_CFG] + \
         [[i == j for i in range(5)] for j in range(5)] + [[i != j for i in range(5)] for j in range(5)]
-    for program, kind in corpus(run, ["agg"]):
+    progs = [(t, "agg") for t in G.agg_templates()] + corpus(run, ["agg"])
+    random.Random(vc.seed() + 3).shuffle(progs)
+    for program, kind in progs:
+        if run.out_of_time():
+            break
         check_vs_reference(run, program, kind, cfgs, key)
     return run.finish("translation_validation",
                       {"explanation": "aggregate heads: engine plans under optimizer configurations vs the reference "
@@ -499,7 +531,10 @@ def run_c02(run):
         a, b = base["case"].cfg, g["case"].cfg
         diff = [P.CFG_NAMES[i] for i in range(5) if a[i] != b[i]]
         return "config-" + kind + "-" + "+".join(diff)
-    for program, kind in corpus(run, ["flat", "shared", "rec", "agg", "flat", "rec", "shared"], with_templates=True):
+    for program, kind in corpus(run, ["flat", "shared", "twins", "rec", "agg", "twins", "flat", "rec", "shared"], with_templates=True,
+                                rec_templates=32 if run.tier == "thorough" else 4):
+        if run.out_of_time():
+            break
         text = R.render(program)
         if kind == "template" or run.tier == "thorough":
             cfgs = P.ALL_CONFIGS
@@ -521,7 +556,10 @@ def run_c02(run):
 def run_c03(run):
     workers = [2, 3] if run.tier == "quick" else [2, 3, 4, 8]
     part = 0
-    for program, kind in corpus(run, ["flat", "agg", "flat", "agg", "rec"], with_templates=False):
+    progs = [(t, "agg") for t in G.partition_templates()] + corpus(run, ["flat", "agg", "flat", "agg", "rec"], with_templates=False)
+    for program, kind in progs:
+        if run.out_of_time():
+            break
         text = R.render(program)
         cases = [P.Case(program, text, P.DEFAULT_CFG, workers=1, label="workers=1")]
         for w in workers:
@@ -542,9 +580,11 @@ def run_c03(run):
 
 def run_c04(run):
     rnd = random.Random(vc.seed() + 5)
-    progs = corpus(run, ["flat", "rec", "shared", "agg", "rec", "mutual"])
+    progs = [(t, "flat") for t in G.order_templates()] + corpus(run, ["flat", "rec", "shared", "twins", "agg", "rec", "mutual"])
     prev_text = None
     for program, kind in progs:
+        if run.out_of_time():
+            break
         text = R.render(program)
         rules = program["rules"]
         cases = [P.Case(program, text, P.DEFAULT_CFG, label="original")]
@@ -552,7 +592,8 @@ def run_c04(run):
         # the query clause stays last; other clauses of the query head may move too
         perms = list(itertools.permutations(range(len(body))))
         rnd.shuffle(perms)
-        for pi, perm in enumerate(perms[: (4 if run.tier == "quick" else 24)]):
+        nperm = 24 if (run.tier == "thorough" or len(body) <= 3) else 4
+        for pi, perm in enumerate(perms[:nperm]):
             if list(perm) == list(range(len(body))):
                 continue
             p2 = {"rules": [body[i] for i in perm] + [last], "query": program["query"]}
@@ -838,9 +879,11 @@ def top_shape(ir):
 
 
 def run_c05(run):
-    progs = corpus(run, ["flat", "shared", "agg", "rec", "flat", "shared"], with_templates=True)
+    progs = corpus(run, ["flat", "shared", "twins", "agg", "rec", "twins", "flat", "shared"], with_templates=True)
     seen = set()
     for program, kind in progs:
+        if run.out_of_time():
+            break
         text = R.render(program)
         rep = run.bridge.job({"job": "build", "program": text, "edb": P.witness_edb(R.edb_arity(program))})
         if not rep.get("ok"):
@@ -872,7 +915,7 @@ def run_c05(run):
     syn_passes = [p for p in PASSES if p not in ("plan_joins", "share_subplans")]
     made = 0
     for _ in range(n_syn * 3):
-        if made >= n_syn:
+        if made >= n_syn or run.out_of_time():
             break
         ir, w = pg.tree(run.cfg.get("plan_depth", 3))
         if ir["op"] == "Scan":
